@@ -29,7 +29,7 @@ import (
 func init() {
 	Register(&Monitor{
 		ID: "C15",
-		Rule: "hostile inputs to every public entry point, executed in child processes that journal each case (kind and raw input) before running it: random bytes; valid expressions/documents mutated at byte and token level; grammar-aware extremes (nested parentheses, flat chains of up to 120 operands for every binary operator with operands that decide / do not decide the result early, long step/predicate chains, very long names) sized for the super-linear GLL parser; XML/HTML/JSON with deep nesting and pathological constructs; XML document type declarations whose internal subsets are assembled from well-formed and broken ENTITY/ELEMENT/ATTLIST/NOTATION pieces; every expression of a pool against every document of a pool; bindings with nil values and user functions that return (nil,nil), an error or panic; Unmarshal targets nil / non-pointers / nil pointers / pointer chains / maps / arrays / channels / funcs / interfaces / self- and mutually-recursive struct and pointer types; Exec with a nil cursor and a nil or zero Grammar; well-typed random queries over the whole builtin palette; " +
+		Rule: "hostile inputs to every public entry point, executed in child processes that journal each case (kind and raw input) before running it: random bytes; valid expressions/documents mutated at byte and token level; grammar-aware extremes (nested parentheses, flat chains of up to 120 operands for every binary operator with operands that decide / do not decide the result early, long step/predicate chains, very long names) sized for the super-linear GLL parser; XML/HTML/JSON with deep nesting and pathological constructs; XML document type declarations whose internal subsets are assembled from well-formed and broken ENTITY/ELEMENT/ATTLIST/NOTATION pieces; every expression of a pool against every document of a pool; bindings with nil values and user functions that return (nil,nil), an error or panic; Unmarshal targets nil / non-pointers / nil pointers / pointer chains / maps / arrays / channels / funcs / interfaces / self- and mutually-recursive struct and pointer types; Exec with a nil cursor and a nil or zero Grammar; well-typed random queries over the whole builtin palette; a custom function returning a proper node-set in every position a primary expression or step can take (union operand, path head, filter, predicate, argument, step); " +
 			"oracle: every call returns within the per-case budget of 30 s of the child's processor time (rusage, not wall-clock; >= 10^3 x the slowest case on the unchanged tree) and returns (value, nil) or (_, error): a case over the budget (child stops, parent resumes after it), a panic escaping the API, a dead child (attributed to the journaled case), or (nil, nil) is a violation; for well-typed queries an error containing 'xpath query panic' is a violation. distinct_nontrivial = distinct (entry point, input class, outcome) triples where the outcome is not a plain success",
 		Assumptions: []string{"'terminates' is decided as 'returns within 30 s of processor time' for inputs of the generated sizes; the 20 min wall-clock watchdog around a shard only makes the run inconclusive", "inputs are sized so that the pinned tree answers each within seconds (GLL parsing is super-linear)"},
 		NCases:      func(tier string) int { return 0 },
@@ -198,6 +198,8 @@ func c15Gen(g *rng.R) c15Case {
 		return c15Case{"exec/nil-args", strconv.Itoa(g.Intn(8))}
 	case k < 92:
 		return c15Case{"unmarshal/targets", strconv.Itoa(g.Intn(1 << 30))}
+	case k < 94:
+		return c15Case{"exec/custom-function-positions", strconv.Itoa(g.Intn(1 << 30))}
 	default:
 		return c15Case{"exec/well-typed", strconv.Itoa(g.Intn(1 << 30))}
 	}
@@ -417,6 +419,35 @@ func c15Exec(c c15Case) (out c15Result) {
 		err := xsel.Unmarshal(res, t)
 		_ = err
 		return c15Result{map[bool]string{true: "ok", false: "error"}[err == nil], ""}
+	case c.Kind == "exec/custom-function-positions":
+		// a custom function returning a proper node-set (or string, number) in every syntactic position a
+		// primary expression or a step can take: these are well-typed queries and must succeed
+		seed, _ := strconv.Atoi(c.Input)
+		g := rng.New(uint64(seed), "c15fnpos")
+		doc := c15World.docs[0]
+		kids := func(ctx xsel.Context, a ...xsel.Result) (xsel.Result, error) {
+			if len(a) > 0 {
+				if ns, ok := a[0].(xsel.NodeSet); ok && len(ns) > 0 {
+					return xsel.NodeSet(append([]xsel.Cursor{}, ns[0].Children()...)), nil
+				}
+			}
+			return xsel.NodeSet(append([]xsel.Cursor{}, doc.Children()[0].Children()...)), nil
+		}
+		str := func(ctx xsel.Context, a ...xsel.Result) (xsel.Result, error) { return xsel.String("2"), nil }
+		exprs := []string{"//a | kids(/r)", "kids(/r) | //a", "/r | kids(/r/a) | //b", "//b | p:kids(/r)/b", "/r/a[count(b | kids(/r)) = 5]", "kids() | kids()", "count(kids(/r) | //a)",
+			"kids(/r)/b | //a/@id", "kids(/r)[2] | kids(/r)[1]", "(kids(/r) | //b)[last()]", "kids(/r)//text() | /r", "//a[kids(.)]", "kids(/r)/..", "kids(/r)[@id = s()]", "//a[@id = s()] | kids(/r)",
+			"-kids(/r)/b", "kids(/r) = s()", "sum(kids(/r)/b | //b)", "string(kids(/r) | /r)", "//a/kids()", "kids(/r)/kids()", "s() | //a"}
+		src := rng.Pick(g, exprs)
+		gr, err := xsel.BuildExpr(src)
+		if err != nil {
+			return c15Result{"error", "build"}
+		}
+		res, err := xsel.Exec(doc, &gr, xsel.WithNS("p", "urn:a"), xsel.WithFunction("kids", kids), xsel.WithFunctionNS("urn:a", "kids", kids), xsel.WithFunction("s", str))
+		r := classify(res, err)
+		if err != nil && src != "s() | //a" {
+			r = c15Result{"VIOLATION:well-typed-query-fails", fmt.Sprintf("%s with a custom function returning a node-set failed with: %s", src, errStr(err))}
+		}
+		return r
 	case c.Kind == "exec/well-typed":
 		seed, _ := strconv.Atoi(c.Input)
 		g := rng.New(uint64(seed), "c15wt")
